@@ -43,6 +43,15 @@ func (p *Parser) Encode(header *parser.PacketHeader, v any) ([][]byte, error) {
 		return nil, fmt.Errorf("parser/json: invalid argument: %w", errNilArgument)
 	}
 
+	// A header that was already used for encoding a packet with binary data (for example the header
+	// of a packet logged for connection state recovery) carries the binary type. Start over from the plain type.
+	switch header.Type {
+	case parser.PacketTypeBinaryEvent:
+		header.Type = parser.PacketTypeEvent
+	case parser.PacketTypeBinaryAck:
+		header.Type = parser.PacketTypeAck
+	}
+
 	if header.Type == parser.PacketTypeEvent || header.Type == parser.PacketTypeAck {
 		if hasBinary(rv) {
 			switch header.Type {
